@@ -250,8 +250,20 @@ func Diff(a, b Snap) []string {
 		}
 	}
 	sort.Strings(out)
-	return out
+	kept := out[:0]
+	for _, d := range out {
+		if !TimeDrivenKeys[d] {
+			kept = append(kept, d)
+		}
+	}
+	return kept
 }
+
+// TimeDrivenKeys are "store:key" entries rewritten by begin-blockers purely as a function of
+// block time, whatever transaction the block carries; they are outside every "state
+// unchanged" comparison (DESIGN §2.3). The rate-limiting BeginBlocker rewrites its hour
+// epoch record in the first block after each full hour of chain time.
+var TimeDrivenKeys = map[string]bool{"ratelimit:hour-epoch": true}
 
 func printable(k string) string {
 	b := []byte(k)
